@@ -140,6 +140,11 @@ class ExcelInPython:
 
     def _compare(self, operator: str, left_operand: str | int | float | datetime.date | datetime.datetime,
                           right_operand: str | int | float | datetime.date | datetime.datetime) -> bool:
+        # the difference of two dates is a number of days
+        if isinstance(left_operand, datetime.timedelta):
+            left_operand = left_operand / datetime.timedelta(days=1)
+        if isinstance(right_operand, datetime.timedelta):
+            right_operand = right_operand / datetime.timedelta(days=1)
         try:
             return self._by_operator(operator, self._to_number(left_operand), self._to_number(right_operand))
         except (ValueError, TypeError):
